@@ -207,6 +207,11 @@ func init() {
 		Finish: func(c *mon.Ctx, r *mon.Report, ev *mon.Evidence) []string {
 			gates := mutGate(r, 300)
 			ev.Coverage["lints_run_alone"] = r.SetSize("lints_run_alone")
+			ev.Coverage["configured_source_comparisons"] = r.Counters["configured_source_comparisons"]
+			ev.Coverage["configured_lint_judged"] = r.SetSize("configured_lint_judged")
+			if r.Counters["configured_source_comparisons"] < 500 || r.SetSize("configured_lint_judged") < 8 {
+				gates = append(gates, fmt.Sprintf("configured-source scenario observed too little: %d comparisons, %d (document, configurable lint) pairs judged", r.Counters["configured_source_comparisons"], r.SetSize("configured_lint_judged")))
+			}
 			ev.Coverage["lints_registered"] = len(Inv)
 			ev.Coverage["lint_level_comparisons"] = r.Counters["comparisons"]
 			if r.SetSize("lints_run_alone") < len(Inv) {
@@ -222,6 +227,7 @@ var _ = corpus.Cert
 // c07Solo (own process): after the registry has been used, lints of every kind are registered through the public
 // API; a filter that selects them must then run them, with the verdict the full registry gives.
 func c07Solo(c *mon.Ctx) {
+	c07Configured(c)
 	g := lint.GlobalRegistry()
 	objs := map[corpus.Kind]*mon.Obj{}
 	for _, k := range []corpus.Kind{corpus.Cert, corpus.CRL, corpus.OCSP} {
@@ -308,4 +314,87 @@ func c07Solo(c *mon.Ctx) {
 			}
 		}
 	}
+}
+
+// c07Configured (own process, before the additions): the property quantifies over configurations too. The SOURCE
+// registry is given a configuration that flips verdicts of the configurable lints; registries filtered from it
+// afterwards (each configurable lint alone, by source, by pattern, random selections, a filter of a filter) must
+// give every selected lint the verdict of the full, configured run.
+func c07Configured(c *mon.Ctx) {
+	g := lint.GlobalRegistry()
+	c11BuildObjs(c)
+	objs := c11Objs
+	if len(objs) > 60 {
+		objs = objs[:60]
+	}
+	def, _ := g.DefaultConfiguration()
+	docs := []cfgDoc{
+		{"options-A", "[e_rsa_fermat_factorization]\nRounds = 1000\n[e_subj_contains_html_entities]\nSkip = true\n[e_subj_orgunit_in_ca_cert]\nCrossCert = true\n[e_crl_next_update_invalid]\nSubscriberCRL = false\n"},
+		{"options-B", "[e_rsa_fermat_factorization]\nRounds = 0\n[e_crl_next_update_invalid]\nSubscriberCRL = true\n"},
+		{"inapplicable", "e_rsa_fermat_factorization = 7\n[e_crl_next_update_invalid]\nSubscriberCRL = \"x\"\n[e_subj_orgunit_in_ca_cert]\nCrossCert = 3\n"},
+		{"default", string(def)},
+		{"empty", ""},
+	}
+	var cfgNames []string
+	for _, li := range Inv {
+		if li.Config {
+			cfgNames = append(cfgNames, li.Name)
+		}
+	}
+	rng := c.Rng(-77, 0)
+	day := today()
+	for _, d := range docs {
+		cfg, err := lint.NewConfigFromString(d.Text)
+		if err != nil {
+			continue
+		}
+		g.SetConfiguration(cfg)
+		type fr struct {
+			reg   lint.Registry
+			label string
+		}
+		var regs []fr
+		add := func(label string, o lint.FilterOptions) {
+			if r, err := g.Filter(o); err == nil && len(r.Names()) > 0 {
+				regs = append(regs, fr{r, "configured(" + d.Label + ") " + label})
+				if sub, err := r.Filter(lint.FilterOptions{ExcludeNames: []string{"e_ca_is_ca"}}); err == nil {
+					regs = append(regs, fr{sub, "configured(" + d.Label + ") filter of " + label})
+				}
+			}
+		}
+		for _, n := range cfgNames {
+			add("only "+n, lint.FilterOptions{IncludeNames: []string{n}})
+			add("source of "+n, lint.FilterOptions{IncludeSources: lint.SourceList{InvBy[n].Meta.Source}})
+		}
+		add("all by pattern", lint.FilterOptions{NameFilter: regexpAll})
+		add("exclude one name", lint.FilterOptions{ExcludeNames: []string{"e_ca_is_ca"}})
+		for k := 0; k < 6; k++ {
+			if fo := randFilter(rng, false); !fo.Empty() {
+				add("random "+describeFilter(fo), fo)
+			}
+		}
+		for _, o0 := range objs {
+			o := o0.Reparse()
+			if o == nil {
+				continue
+			}
+			rs, pv, _ := o.Lint(g)
+			c.R.Count("evaluations", 1)
+			if pv != nil || rs == nil {
+				continue
+			}
+			full := mon.SnapOf(rs)
+			ff := flags{rs.NoticesPresent, rs.WarningsPresent, rs.ErrorsPresent, rs.FatalsPresent}
+			for _, r := range regs {
+				c07Compare(c, o, full, ff, r.reg, r.label, "configured source registry", day)
+				c.R.Count("configured_source_comparisons", 1)
+			}
+			for _, n := range cfgNames {
+				if v, ok := full[n]; ok && v.Status > int(lint.NE) {
+					c.R.Distinct("configured_lint_judged", d.Label+"|"+n)
+				}
+			}
+		}
+	}
+	g.SetConfiguration(lint.NewEmptyConfig())
 }
